@@ -50,6 +50,9 @@ type Spec struct {
 	hashMustHold bool
 	mute         bool
 	reopened     bool // the handle was closed / abandoned and reopened at least once
+	ticksQuiet   int  // flusher ticks since the last call that may leave a write pending (async)
+	dirty        bool // a write may be pending (async mode, since the last flush / commit / close)
+	outside      bool // the directory was modified from outside (fault ops)
 }
 
 // failedWrite: a write call that returned an error, with the sweep taken just before it
@@ -790,6 +793,23 @@ func (s *Spec) checkOrder(e *Exec, t, r []string, sr *specRes) {
 //   - whenever an index dump is followed by a directory dump with no write pending, every index
 //     entry must agree with the file content of its object and every index must be sorted.
 func (s *Spec) stateOracles(e *Exec, t, r []string) {
+	// bookkeeping for the asynchronous-write oracles
+	switch t[0] {
+	case "tick":
+		s.ticksQuiet++
+	case "ins", "many", "bulk", "del", "delall", "sdel", "create", "reopen", "close", "repair":
+		s.ticksQuiet = 0
+		if e.cfg.Async {
+			s.dirty = true
+		}
+		if t[0] == "close" || t[0] == "reopen" {
+			s.dirty = false
+		}
+	case "flushall", "flushallc", "commit":
+		s.dirty = false
+	case "rmfile", "corrupt", "truncfile", "addfile", "rmschema", "rmentry", "stray", "drop":
+		s.outside = true
+	}
 	switch t[0] {
 	case "count", "all", "dump":
 		if t[0] == "count" {
@@ -834,7 +854,16 @@ func (s *Spec) stateOracles(e *Exec, t, r []string) {
 			s.pending = nil
 		}
 		s.lastSweep = ""
-	case "control":
+	case "control", "schema":
+		// no false positive: on a database nobody damaged, with nothing pending, Control and the
+		// first load succeed (C11: "if and only if")
+		if !s.off && !s.faulted && !s.outside && s.crashCtx == "" && !s.mute && s.variant <= 1 && r[0] != "ok" &&
+			(!e.cfg.Async || !s.dirty) {
+			s.fail(e, "C11", "%s reports %q on a healthy database (no fault, no crash, nothing pending)", t[0], r[0])
+		}
+		if t[0] == "schema" {
+			break
+		}
 		s.lastCtl = r[0]
 		if p := s.pending; p != nil && p.class == "storage-diverged" {
 			s.pending = nil
@@ -849,6 +878,7 @@ func (s *Spec) stateOracles(e *Exec, t, r []string) {
 		}
 	case "fs":
 		s.noGhostFile(e)
+		s.flushedInTime(e)
 		s.agreement(e)
 	case "repair":
 		if e.repairTouched && !s.faulted && s.crashCtx == "" {
@@ -890,6 +920,37 @@ func (s *Spec) noGhostFile(e *Exec) {
 				}
 				s.fail(e, prop, "the directory holds a file of object #%d, which was deleted or never accepted", u)
 			}
+		}
+	}
+}
+
+// flushedInTime (C10): asynchronous writes, the flusher has been ticked more often than the
+// timeout since the last call: "pending writes reach disk without further calls once ... the
+// timeout elapses": every accepted object must have its file.
+func (s *Spec) flushedInTime(e *Exec) {
+	if s.off || s.faulted || s.outside || s.crashCtx != "" || s.mute || !e.cfg.Async || s.variant > 1 {
+		return
+	}
+	if s.ticksQuiet < e.cfg.To+1 {
+		return
+	}
+	have := map[int]bool{}
+	for _, l := range e.obs {
+		f := strings.Fields(l)
+		if len(f) >= 3 && f[0] == "s" && f[1] == "file" && strings.HasPrefix(f[2], "U") {
+			name := f[2]
+			if i := strings.IndexByte(name, '.'); i >= 0 {
+				name = name[:i]
+			}
+			if u, err := strconv.Atoi(name[1:]); err == nil {
+				have[u] = true
+			}
+		}
+	}
+	for u := range s.live {
+		if !have[u] {
+			s.fail(e, "C10", "asynchronous writes: object #%d was accepted, the flusher was ticked %d times (timeout %d steps) with no call in between, and it has no file", u, s.ticksQuiet, e.cfg.To)
+			return
 		}
 	}
 }
